@@ -91,6 +91,33 @@ func c06EvalKey(w *mc.W, cas c06Key) {
 		if !bytes.Equal(d.SerializePubKey(), wantPub) {
 			fail("decoded-public-key-serialisation-wrong", "")
 		}
+		// the owner of a decoded WIF wipes it (big.Int fields set in place, as wallets do); an independent
+		// decode of the same string afterwards returns the key again
+		{
+			d1, err1 := bchutil.DecodeWIF(s)
+			if err1 == nil && d1 != nil && d1.PrivKey != nil && d1.PrivKey.D != nil {
+				d1.PrivKey.D.SetInt64(0)
+				if d1.PrivKey.X != nil && d1.PrivKey.Y != nil {
+					d1.PrivKey.X.SetInt64(7)
+					d1.PrivKey.Y.SetInt64(0)
+				}
+				sp := d1.SerializePubKey()
+				for i := range sp {
+					sp[i] = 0xee
+				}
+			}
+			d2, err2 := bchutil.DecodeWIF(s)
+			if err2 != nil {
+				fail("second-decode-fails-after-the-first-result-was-wiped", err2.Error())
+			} else {
+				g2 := d2.PrivKey.D.Bytes()
+				if len(g2) > 32 || !bytes.Equal(append(make([]byte, 32-len(g2)), g2...), kb) {
+					fail("second-decode-returns-the-wiped-key-of-the-first", fmt.Sprintf("%x", g2))
+				} else if d2.String() != s || !bytes.Equal(d2.SerializePubKey(), wantPub) {
+					fail("second-decode-differs-after-the-first-result-was-wiped", d2.String())
+				}
+			}
+		}
 		// WIF is a plain struct with exported fields: the string is a function of the fields AS THEY
 		// ARE when String is called (a caller re-exporting an imported legacy key as compressed sets
 		// the flag; one rotating a key sets PrivKey).  Anything remembered from the decoded string or
